@@ -321,10 +321,16 @@ claim('C33',
 claim('C34',
       'The TLC-generated trees and derivative trees of Expr.tla rendered as Python source: NumPy functions wrapped with openmdao.func_api for '
       'ExplicitFuncComp / ImplicitFuncComp (cs or jax, coloring, jit) and JaxExplicitComponent / JaxImplicitComponent subclasses; outputs/residuals, '
-      'totals and sub-Jacobians are compared at two points with the spec\'s trees evaluated by NumPy (1e-9 relative, jax in float64).',
+      'totals and sub-Jacobians are compared at two points with the spec\'s trees evaluated by NumPy (1e-9 relative, jax in float64).  '
+      'FuncSig.tla enumerates component structures (1-3 inputs, 1-2 outputs/states: argument order, return order, add_output order, named or '
+      'positional returns, shapes, partial direction) with layout laws (ColsLaw, OffsetLaw, DirLaw, KeptLaw, RotationLaw); FuncSigJudge.tla '
+      'derives by name the expected residual trees and every Jacobian block of harness-composed multi-output cases, which are rendered, '
+      'executed and compared by name in 16 classes (kind x direction x state order).',
       'Scenario selection sampled; cs scenarios exclude abs/arctan2; non-smooth trees at a single point where sparsity is sampled at the first '
-      'linearization; implicit components: residuals and partials only.',
-      'TLA+ Expr.tla trees + TLC + generated-source replay into func-API and jax components', '6/C34, 7')
+      'linearization; sampled-sparsity scenarios whose exact derivative has an entry that is zero within tolerance at the first point are compared '
+      'at one point only; implicit components: residuals and partials only.',
+      'TLA+ Expr.tla trees + FuncSig.tla structures (argument / return / declaration orders, shapes, direction; layout laws) + FuncSigJudge.tla '
+      '(by-name expected residual trees and Jacobian blocks) + TLC + generated-source replay', '6/C34, 7')
 
 
 claim('C17',
